@@ -2,4 +2,4 @@ SPECIFICATION MSpec
 CONSTRAINT HW
 POSTCONDITION Accepted
 CHECK_DEADLOCK FALSE
-INVARIANTS M_C04_Once M_C04_OnlyExpected M_C04_AtReturn M_C05_NoEarly M_C05_NoLateWork M_C06_Bound M_C08_Order M_C09_NotPublished M_C09_NoSilent M_C09_EndStatus M_C02_NoReexec M_C16_Closure
+INVARIANTS M_C04_Once M_C04_OnlyExpected M_C04_AtReturn M_C05_NoEarly M_C05_NoLateWork M_C06_Bound M_C08_Order M_C08_PerUpstream M_C09_NotPublished M_C09_NoSilent M_C09_EndStatus M_C02_NoReexec M_C16_Closure
